@@ -1,4 +1,4 @@
-import Yomm2
+import Yomm2.Driver
 /-!
 # Line-protocol driver of the model (compiled as `driver`; imports nothing outside core + the model)
 
